@@ -19,6 +19,11 @@ Two more schedules: a user thread stopped between the gate and the write (switch
 packetizer before a user thread's write) while the exchange starts, and held traffic released in two segments
 more than a read timeout apart, the first ending inside the first cipher block (the model has no notion of
 segmentation: such cells must simply be transparent).
+One more schedule: renegotiate_keys() twice back to back, the second call issued from a switch point placed
+where the first one can return (our own Event installed as completion_event; its set() runs on the transport
+thread inside _parse_newkeys), with a user send and the peer's reply held for a moment.  The model has two
+variants of _parse_newkeys (v1: gate released atomically, completion signalled afterwards; v0: signalled
+first); the translator's nk_atomic says which one the tree is and the cell must agree.
 Oracle (independent of the model and of the translator): no message >= 50 between A's KEXINIT and A's NEWKEYS,
 the transport thread never enters the gate while the flag is clear and never sits on a channel / transport
 lock inside a handler while the exchange is pending (two stack samples of the transport thread), the re-exchange completes, both ends stay up, M's
@@ -56,7 +61,9 @@ LEVEL_NOTE = ("Partial: thread timing, the 0.1 s polling of the gate and the cle
               "locks and the transport lock are one lock in the model and a parked user's own timeout is not "
               "modelled; auth-layer "
               "handlers (types 50-79) and opaque callbacks (ServerInterface methods, x11/agent/tcp handlers) are "
-              "not walked; gen/c11.py and the relay are trusted.  Known findings: replies of _parse_global_request "
+              "not walked; gen/c11.py and the relay are trusted.  _parse_newkeys signals completion before releasing the gate "
+              "(v0, known finding with a proposed repair; all universal theorems are about v1, C11_tree_is_v1 links "
+              "them to the tree once the translator sees the repaired shape).  Known findings: replies of _parse_global_request "
               "/ _parse_channel_open are sent ungated during the exchange; Channel._handle_request / _handle_close "
               "/ _request_failed / _feed_extended and the keepalive tick go through the gate on the transport "
               "thread, which then waits on a flag only it can set until 'Key-exchange timed out'.")
@@ -646,6 +653,103 @@ def run_cell(role, name, init, rng, user_send=True, op="send", switch="kexinit",
         s.close()
 
 
+def run_back2back(role, rng):
+    """renegotiate_keys() twice back to back: the second call is issued the moment the first one can return, i.e.
+    when completion_event is set.  Switch point: our own Event object installed as transport.completion_event; its
+    set() runs (on the transport thread, inside _parse_newkeys) the second renegotiate_keys and a user send before
+    letting _parse_newkeys continue."""
+    s = Sess(role)
+    obs = {"role": role, "cell": "nothing", "init": "back2back", "ptype": 0, "replies": False, "op": "send",
+           "tt_lock_block": None, "switch": "completion", "split": 0, "delivered_inflight": None,
+           "delivered_user": None}
+    try:
+        A, B = s.A, s.B
+        s.mark()
+        payload = b"queued-" + bytes(rng.randrange(97, 123) for _ in range(rng.randrange(1, 40)))
+        rk, us, threads = {}, {}, []
+
+        def renegotiate(tag):
+            try:
+                A.renegotiate_keys()
+                rk[tag] = "ok"
+            except Exception as e:          # noqa
+                rk[tag] = repr(e)
+
+        def user():
+            try:
+                s.chanA.sendall(payload)
+                us["ok"] = True
+            except Exception as e:          # noqa
+                us["exc"] = e
+
+        def n20():
+            return len([1 for t, _ in s.out_trace() if t == 20])
+
+        class SwitchEvent(threading.Event):
+            def set(self):
+                super().set()
+                if not obs.get("switched"):
+                    obs["switched"] = True
+                    obs["flag_at_completion"] = A.clear_to_send.is_set()
+                    s.net.hold()        # the peer's answer to the second KEXINIT stays in flight for a moment
+                    t2 = threading.Thread(target=renegotiate, args=("second",), daemon=True)
+                    t2.start()
+                    threads.append(t2)
+                    _wait(lambda: n20() >= 2, 3.0)
+                    ut = threading.Thread(target=user, daemon=True)
+                    ut.start()
+                    threads.append(ut)
+                    _wait(lambda: any(not tt for t, tt, _, _ in s.gate()), 3.0)
+                    switched.set()
+
+        switched = threading.Event()
+        s.net.hold()
+        t1 = threading.Thread(target=renegotiate, args=("first",), daemon=True)
+        t1.start()
+        threads.append(t1)
+        if not _wait(lambda: n20() >= 1):
+            raise RuntimeError("A did not send KEXINIT")
+        A.completion_event = SwitchEvent()        # renegotiate_keys re-reads the attribute on every poll
+        s.net.release()
+        if not switched.wait(WATCH):
+            raise RuntimeError("completion_event was not signalled")
+        # the transport thread now runs the rest of _parse_newkeys; give a released user thread time to write
+        _wait(lambda: 94 in [t for t, _ in s.out_trace()], 0.5)
+        s.net.release()
+
+        def finished():
+            return (s.in_trace().count(21) >= 2 and [t for t, _ in s.out_trace()].count(21) >= 2) \
+                or not A.is_active() or not B.is_active()
+
+        obs["finished"] = _wait(finished, CTS_TIMEOUT + WATCH)
+        time.sleep(0.05)
+        for t in list(threads):
+            t.join(CTS_TIMEOUT + 3.0)
+        obs["threads_left"] = sum(1 for t in threads if t.is_alive())
+        tr = s.out_trace()
+        obs["out"] = [t for t, _ in tr]
+        obs["offenders"] = offenders(tr)
+        obs["gate"] = s.gate()
+        obs["tt_waited"] = [(t, k) for t, tt, flag, k in s.gate() if tt and not flag]
+        obs["rekey_done"] = s.in_trace().count(21) >= 2 and obs["out"].count(21) >= 2
+        obs["a_alive"], obs["b_alive"] = A.is_active(), B.is_active()
+        obs["a_exc"], obs["b_exc"] = repr(A.saved_exception), repr(B.saved_exception)
+        obs["renegotiate"] = "ok" if rk.get("first") == "ok" and rk.get("second") == "ok" else repr(rk)
+        obs["user"] = "ok" if us.get("ok") else repr(us.get("exc"))
+        if obs["rekey_done"] and obs["a_alive"] and obs["b_alive"]:
+            if us.get("exc") is not None:
+                obs["delivered_user"] = False
+            else:
+                st, v = with_watchdog(lambda: _recvn(s.chanB, len(payload)) == payload, WATCH + 2)
+                obs["delivered_user"] = st == "ok" and bool(v)
+                last21 = max(i for i, (t, _) in enumerate(tr) if t == 21)
+                user_out = [i for i, (t, tt) in enumerate(tr) if t == 94 and not tt]
+                obs["user_after_newkeys"] = bool(user_out) and all(i > last21 for i in user_out)
+        return obs
+    finally:
+        s.close()
+
+
 def canonical(obs):
     """[code; delivered; offender types...]  code: 2 transport thread waited on the flag, 1 a message >= 50 went
     out between KEXINIT and NEWKEYS, 0 transparent."""
@@ -674,7 +778,15 @@ def judge(ctx, obs):
                            "out": obs["out"], "gate": [list(g) for g in obs["gate"]]})
         return
     for t, tt in obs["offenders"]:
-        if not tt:
+        if not tt and obs["init"] == "back2back":
+            ctx.fail("renegotiate-in-newkeys-window-undoes-flag-clear",
+                     "_parse_newkeys signals completion_event before it sets clear_to_send: a renegotiate_keys() issued "
+                     "when the previous one returns has its clear() undone by the late set(), user data follows the new "
+                     "KEXINIT and the peer aborts",
+                     case=case, expected="held until the second NEWKEYS",
+                     observed={"type": t, "out": obs["out"], "flag_at_completion": obs.get("flag_at_completion"),
+                               "peer_exc": obs["b_exc"]})
+        elif not tt:
             ctx.fail("user-send-ungated-during-kex",
                      "a user thread emitted a message >= 50 between own KEXINIT and own NEWKEYS",
                      case=case, expected="held until NEWKEYS", observed={"type": t, "out": obs["out"]})
@@ -718,8 +830,8 @@ def WATCH_TEXT(key, default):
 
 def model_case(obs):
     """(init, ptype, replies, keepalive) for run_cell in coq/Model/C11.v"""
-    return (0 if obs["init"] == "explicit" else 1, obs["ptype"], bool(obs["replies"]),
-            obs["cell"] == "keepalive-tick", bool(obs.get("ulocked")))
+    return ({"explicit": 0, "threshold": 1, "back2back": 2}[obs["init"]], obs["ptype"], bool(obs["replies"]),
+            obs["cell"] == "keepalive-tick", bool(obs.get("ulocked")), bool(obs.get("nka")))
 
 
 def _gen_tables(repo):
@@ -736,7 +848,10 @@ def guarded_cell(ctx, role, name, init, rng, op="send", switch="kexinit", split=
     box = {}
 
     def go():
-        box["obs"] = run_cell(role, name, init, rng, op=op, switch=switch, split=split)
+        if init == "back2back":
+            box["obs"] = run_back2back(role, rng)
+        else:
+            box["obs"] = run_cell(role, name, init, rng, op=op, switch=switch, split=split)
 
     for attempt in (0, 1):
         st, v = with_watchdog(go, 60)
@@ -765,7 +880,8 @@ def run(ctx):
                 "at a switch point right after own KEXINIT is written; 12 further cells (24 thorough) where that user "
                 "thread calls shutdown_write() / close() while the peer's WINDOW_ADJUST / EOF / CLOSE / data for the "
                 "channel is in flight; 4 cells with the user thread stopped between gate and write when the exchange "
-                "starts; 6 cells (12 thorough) where the held traffic arrives in two segments 0.25 s apart split at "
+                "starts; 2 cells with two renegotiate_keys back to back, the second inside the first one's "
+                "_parse_newkeys; 6 cells (12 thorough) where the held traffic arrives in two segments 0.25 s apart split at "
                 "byte 1..7 (thorough also 9/17/33); quick tier takes every kind once per role with the initiation mode drawn from "
                 "the seed, thorough takes all combinations twice; a cell is non-trivial when something was in "
                 "flight or a user send was queued")
@@ -807,11 +923,18 @@ def run(ctx):
             for init in (("threshold", "explicit") if ctx.thorough else ("threshold",)):
                 k = rng.randrange(1, 8) if not ctx.thorough or rng.random() < 0.7 else rng.choice([9, 17, 33])
                 plan.append((role, name, init, "send", "kexinit", k))
+    for role in ("client", "server"):
+        plan.append((role, "nothing", "back2back", "send", "completion", 0))
     # which user operations send while holding self.lock, according to the translator (none on a sound tree)
     locked_ops = set()
+    nka = None
     try:
-        lf = {f for f, _ in _gen_tables(ctx.repo)["facts"]["locked_sends"]}
+        facts = _gen_tables(ctx.repo)["facts"]
+        lf = {f for f, _ in facts["locked_sends"]}
         locked_ops = {o for o, fs in OP_FUNCS.items() if fs & lf}
+        nka = bool(facts["nk_atomic"])
+        ctx.notes.append("model variant for the NEWKEYS window: %s" % ("v1 (atomic release)" if nka else
+                                                                        "v0 (completion signalled first)"))
     except Exception as e:      # reported by ctx.prove(); the oracle below does not depend on it
         ctx.notes.append("translator unavailable for the lock cross-check: %r" % (e,))
     results = []
@@ -831,6 +954,7 @@ def run(ctx):
         if obs is None:
             continue
         obs["ulocked"] = op in locked_ops
+        obs["nka"] = nka if nka is not None else not (obs["init"] == "back2back" and obs["offenders"])
         ctx.count((role, name, init, op, switch, split, tuple(obs["out"])), nontrivial=True,
                   kind="%s-%s-%s%s%s" % (name, op, init, "-presend" if switch == "presend" else "",
                                          "-split" if split else ""))
@@ -840,7 +964,7 @@ def run(ctx):
     ctx.traces = len(results)
     if ctx.proof is not None and ctx.proof.model_ok:
         cases = [(coq(model_case(o)), canonical(o)) for o in results]
-        bad = ctx.model_mismatches("run_cell", "(Z * Z * bool * bool * bool)", cases)
+        bad = ctx.model_mismatches("run_cell", "(Z * Z * bool * bool * bool * bool)", cases)
         for i in bad[:4]:
             o = results[i]
             ctx.disagree("cell outcome differs from the model's prediction over the generated discipline table",
@@ -854,7 +978,7 @@ def run(ctx):
         types = {r["ptype"]: set(r["types"]) for r in tab["rows"]}
         types[0] = set(tab["keepalive"]["types"])
         for o in results:
-            seen = set(t for t, _ in o["offenders"]) | set(t for t, _ in o["tt_waited"])
+            seen = set(t for t, tt in o["offenders"] if tt) | set(t for t, _ in o["tt_waited"])
             if not seen <= types.get(o["ptype"], set()):
                 ctx.disagree("a handler emitted a message type the generated table does not list for it",
                              case={"role": o["role"], "cell": o["cell"], "init": o["init"]},
